@@ -421,7 +421,9 @@ func (b *Builder) findRegistryPackageSource(ctx context.Context, sourceAddr sour
 
 		var versionDeprecation *ModulePackageVersionDeprecation
 		for _, v := range availablePackageInfos {
-			if selectedVersion.Same(v.Version) {
+			// Exact equality, not Same: two offered versions can differ
+			// only in build metadata, and each carries its own note.
+			if selectedVersion == v.Version {
 				versionDeprecation = v.Deprecation
 				break
 			}
